@@ -90,11 +90,14 @@ LEAF_EXACT = '[leaf_text_exact C10 C08] r@ == txt({n}.text_s())'
 VERBATIM = '[verbatim_when_disabled C07] self.store_s().disabled_s({n}.span_s()) ==> r@ == txt({n}.full_text_s())'
 ROUTE = '[marked_expression_is_emitted_verbatim C07] self.store_s().disabled_s({n}.span_s()) && ast::expr_kind({n}.kind_s()) ==> r@ == txt({n}.full_text_s())'
 EXTRA = {
+    'convert_array': {'closures': ['@insert before "ListStylist::new(self)"',
+                                   '    proof { assert(!is_explicit ==> ${ctx}.mode == ctx.mode); }   // [a_row_of_a_2d_math_argument_stays_in_math_mode C01 C09]',
+                                   '    proof { assert(is_explicit ==> ${ctx}.mode == Mode::CodeCont); }   // [a_parenthesised_array_is_converted_as_code C01]']},
     'convert_array_item': {'ensures': [ROUTE], 'serves': 'C07'},
     'convert_dict_item': {'ensures': [ROUTE], 'serves': 'C07'},
     'convert_param': {'ensures': [ROUTE], 'serves': 'C07'},
     'convert_destructuring_item': {'ensures': [ROUTE], 'serves': 'C07'},
-    'convert_arg': {'ensures': [ROUTE], 'serves': 'C07'},
+    'convert_arg': {'ensures': [ROUTE, '[a_positional_argument_is_converted_in_the_context_given C01 C04] ast::expr_kind({n}.kind_s()) ==> r@ == expr_doc_s(ctx, {n})'], 'serves': 'C07'},
     'convert_expr_with_optional_paren': {'proof': ['reveal_strlit("("); reveal_strlit(")"); reveal_strlit("{"); reveal_strlit("}"); lemma_optional_paren_words_all(self.unit_s(), "("@, ")"@); lemma_optional_paren_words_all(self.unit_s(), "{"@, "}"@);']},
     'convert_expr': {'ensures': ['[result_is_a_function_of_context_and_node assumed C01] r@ == expr_doc_s(ctx, {n})', VERBATIM, '[leaf_kinds_exact C10 C08] !self.store_s().disabled_s({n}.span_s()) && is_exact_leaf_kind({n}.kind_s()) ==> r@ == txt({n}.text_s())'], 'serves': 'C07 C10'},
     'convert_expr_impl': {'ensures': ['[leaf_kinds_exact C10 C08] is_exact_leaf_kind({n}.kind_s()) ==> r@ == txt({n}.text_s())'], 'serves': 'C10',
@@ -128,6 +131,7 @@ EXTRA = {
 
 # flow-like converters: ordinal of the producer closure, name of its node parameter, string literals it emits
 FLOW = {
+    'convert_import': (1, 'child', [':', '*']),
     'convert_named': (0, 'child', [':']),
     'convert_keyed': (0, 'child', [':']),
     'convert_closure': (0, 'child', ['=', '=>']),
@@ -197,7 +201,7 @@ W_EMITS_ONLY = {'convert_closure', 'convert_for_loop'}
 
 # C07 routing: every flow producer hands an expression child that carries an `@typstyle off` mark to an entry point that emits it
 # verbatim.  Not claimed for producers whose choice of entry point depends on untracked state (R29).
-NO_VERBATIM_ROUTING = {'convert_closure', 'convert_for_loop', 'convert_math_delimited'}   # the latter: own clause in FLOW_EXTRA (only the Math body)
+NO_VERBATIM_ROUTING = {'convert_closure', 'convert_for_loop', 'convert_math_delimited', 'convert_import'}   # the latter: own clause in FLOW_EXTRA (only the Math body)
 
 # converters whose W clause is not about the whole node (hand-written in their own .vc file)
 W_OWN = {'convert_table', 'convert_parenthesized_args', 'convert_parenthesized_args_as_list', 'convert_additional_args'}
@@ -249,6 +253,8 @@ GRAMMAR.update({
     'Destructuring': ['LeftParen', 'RightParen', 'Comma', 'Spread', 'Named', 'Underscore', 'Destructuring'],
     'Params': ['LeftParen', 'RightParen', 'Comma', 'Spread', 'Named', 'Underscore', 'Destructuring'],
     'Parenthesized': ['LeftParen', 'RightParen', 'Underscore', 'Destructuring'],
+    # argument lists (code and math): positional arguments are expressions
+    'Args': ['LeftParen', 'RightParen', 'Comma', 'Semicolon', 'Spread', 'Named'],
 })
 # a `#` occurs only below these nodes (markup, math)
 HASH_PARENTS = ['Markup', 'Math', 'MathAttach', 'MathFrac', 'MathRoot', 'MathDelimited', 'Args', 'Equation', 'Named', 'Array', 'Spread']
@@ -296,12 +302,12 @@ def write_grammar(here):
               '{}',
               '/// the non-expression item kinds below the list-like nodes',
               'pub open spec fn list_item_kind(parent: SyntaxKind, child: SyntaxKind) -> bool {',
-              '    match parent {'] + ['        SyntaxKind::%s => matches!(child, %s),' % (pk, ' | '.join('SyntaxKind::' + k for k in GRAMMAR[pk] if k not in ('LeftParen', 'RightParen', 'Comma'))) for pk in ('Array', 'Destructuring', 'Params', 'Parenthesized')] + [
+              '    match parent {'] + ['        SyntaxKind::%s => matches!(child, %s),' % (pk, ' | '.join('SyntaxKind::' + k for k in GRAMMAR[pk] if k not in ('LeftParen', 'RightParen', 'Comma', 'Semicolon'))) for pk in ('Array', 'Destructuring', 'Params', 'Parenthesized', 'Args')] + [
               '        _ => false,', '    }', '}',
               '/// the instance of the table for the list-like nodes',
               'pub proof fn lemma_list_child_kinds(parent: SyntaxKind, child: SyntaxKind)',
-              '    requires matches!(parent, SyntaxKind::Array | SyntaxKind::Destructuring | SyntaxKind::Params | SyntaxKind::Parenthesized), child_kind_ok(parent, child),',
-              '    ensures trivia_child_kind(child) || ast::expr_kind(child) || matches!(child, SyntaxKind::LeftParen | SyntaxKind::RightParen | SyntaxKind::Comma) || list_item_kind(parent, child),',
+              '    requires matches!(parent, SyntaxKind::Array | SyntaxKind::Destructuring | SyntaxKind::Params | SyntaxKind::Parenthesized | SyntaxKind::Args), child_kind_ok(parent, child),',
+              '    ensures trivia_child_kind(child) || ast::expr_kind(child) || matches!(child, SyntaxKind::LeftParen | SyntaxKind::RightParen | SyntaxKind::Comma | SyntaxKind::Semicolon) || list_item_kind(parent, child),',
               '        child == SyntaxKind::Hash ==> hash_parent(parent),',
               '{ reveal(child_kind_ok); }', '']
     open(os.path.join(here, '..', 'prelude', 'grammar_gen.rs'), 'w').write('\n'.join(lines))
